@@ -71,6 +71,7 @@ def gen_leaf(eng, tag, kinds, sh=None):
 
 LEAF_KINDS = ['none', 'bool', 'int', 'float', 'special', 'str']
 KEY_KINDS = ['str', 'int', 'bool', 'none', 'float']
+BAD_KEYS = [(1, 2), (), ('a',), b'k', frozenset()]
 CONCRETE_KEYS = [0, 1, -1, 2 ** 53 + 1, True, False, 0.0, 1.0, -0.0, 0.5, float('inf'), 'true', '1', '1.0', 'null']
 
 
@@ -85,6 +86,9 @@ def gen_key(eng, tag, sh):
         return eng.fresh_bool('kb' + tag)
     if k == 'none':
         return None
+    if k == 'badkey':
+        # keys json refuses (TypeError), although their elements are JSON values
+        return BAD_KEYS[eng.choose('kb' + tag, len(BAD_KEYS))]
     if k == 'concrete':
         # a plain Python key from the classes that collide in hash()/== (True == 1 == 1.0, False == 0 == -0.0) or sit next
         # to a JSON keyword: exact Python semantics, also against lookup tables the library may hold
@@ -135,7 +139,7 @@ def has_bad(v):
     if isinstance(v, (list, tuple)):
         return any(has_bad(x) for x in v)
     if isinstance(v, dict):
-        return any(isinstance(k, (Bad, tuple)) or has_bad(x) for k, x in v.items())
+        return any(isinstance(k, (Bad, tuple, bytes, frozenset)) or has_bad(x) for k, x in v.items())
     return False
 
 
